@@ -45,6 +45,13 @@ func runSolver(s solverSpec, query string, timeoutS int, seed int) (result strin
 	secs = time.Since(t0).Seconds()
 	out = buf.String()
 	first := strings.TrimSpace(strings.SplitN(out, "\n", 2)[0])
+	for _, line := range strings.Split(out, "\n") {
+		l := strings.TrimSpace(line)
+		if l == "sat" || l == "unsat" || l == "unknown" || l == "timeout" {
+			first = l
+			break
+		}
+	}
 	switch {
 	case first == "unsat", first == "sat", first == "unknown":
 		result = first
@@ -72,9 +79,12 @@ func queryText(prelude string, o *Obligation, getModel bool) string {
 		b.WriteString(p)
 		b.WriteString(")\n")
 	}
-	b.WriteString("(assert (not ")
-	b.WriteString(o.Goal)
-	b.WriteString("))\n(check-sat)\n")
+	if !o.Cover {
+		b.WriteString("(assert (not ")
+		b.WriteString(o.Goal)
+		b.WriteString("))\n")
+	}
+	b.WriteString("(check-sat)\n")
 	if getModel {
 		b.WriteString("(get-model)\n")
 	}
@@ -98,7 +108,7 @@ func solveAll(prelude string, obls []*Obligation, opt solveOpts) {
 	byHash := map[[32]byte]*job{}
 	var jobs []*job
 	for _, o := range obls {
-		if o.Goal == "true" {
+		if o.Goal == "true" && !o.Cover {
 			o.Result, o.Backend = "unsat", "trivial"
 			continue
 		}
@@ -123,11 +133,19 @@ func solveAll(prelude string, obls []*Obligation, opt solveOpts) {
 		go func() {
 			defer wg.Done()
 			for j := range ch {
-				res, out, secs, be := solveOne(j.text, opt)
+				var res, out, be string
+				var secs float64
+				if j.obls[0].Cover {
+					// reachability: anything but unsat is fine, a short run suffices
+					res, out, secs = runSolver(solvers[0], j.text, 2, opt.seed)
+					be = solvers[0].name
+				} else {
+					res, out, secs, be = solveOne(j.text, opt)
+				}
 				for _, o := range j.obls {
 					o.Result, o.Output, o.Seconds, o.Backend = res, out, secs, be
 				}
-				if (res != "unsat" || os.Getenv("GOVC_DUMPALL") != "") && opt.workDir != "" {
+				if ((res != "unsat" && !j.obls[0].Cover) || os.Getenv("GOVC_DUMPALL") != "") && opt.workDir != "" {
 					o := j.obls[0]
 					name := strings.NewReplacer("/", "_", ":", "_", "*", "P", "(", "", ")", "", " ", "_", "$", "_").Replace(o.ID())
 					os.MkdirAll(opt.workDir, 0o755)
